@@ -64,6 +64,24 @@ def gen_case(rnd):
     return mk_case(dict(DOC), q, mode="seq", consts=consts, tag=f)
 
 
+def gen_group_case(rnd):
+    """the same built-ins called on the GROUP BY key (and in HAVING) of a grouped query: their arguments are the key's
+    value, not the group's member column"""
+    rows = [{"g": rnd.choice(["a", "b", "Ab", "c"]), "n": rnd.choice([1, 2, 3]), "arr": [1, 2]} for _ in range(rnd.randint(0, 6))]
+    g = col("g")
+    call = rnd.choice([
+        ["func", "", "to_upper", [g]], ["func", "", "to_lower", [g]], ["func", "", "concat", [g, ["str", "!"]]],
+        ["func", "", "if", [["cmp", "eq", g, ["str", "a"]], ["str", "yes"], g]], ["func", "", "changetype", [g, ["str", "array"]]],
+        ["func", "", "array", [g, num(1)]], ["func", "", "daterange", [g, ["str", "z"]]],
+        ["func", "", "concat", [["func", "", "to_upper", [g]], ["aggr", "count", []]]],
+    ])
+    hv = TRUE
+    if rnd.random() < 0.3:
+        hv = ["cmp", rnd.choice(["eq", "ne"]), ["func", "", "to_upper", [g]], ["str", "A"]]
+    q = select([item(call, "v"), item(["aggr", "count", []], "cnt"), item(g)], table("t"), gb=[["g", ["g"]]], hv=hv)
+    return mk_case({"t": rows}, q, mode="seq", tag="grouped-call")
+
+
 def nontrivial(c, g, l):
     return True
 
@@ -151,6 +169,7 @@ def explore(chk, rnd, tier):
     while done < n and not chk.violations:
         m = min(5000, n - done)
         run_cases(chk, [gen_case(rnd) for _ in range(m)], nontrivial=nontrivial)
+        run_cases(chk, [gen_group_case(rnd) for _ in range(m // 10)], nontrivial=nontrivial, label="grouped:")
         done += m
     if not chk.violations:
         codec_checks(chk, rnd, tier)
